@@ -499,7 +499,7 @@ class Units(object):
                 expo += new_name[key]
 
             if expo == 0:
-                del new_name[key]
+                new_name.pop(key, None)     # the key may be absent
             else:
                 new_name[key] = expo
 
@@ -520,7 +520,7 @@ class Units(object):
                 expo -= new_name[key]
 
             if expo == 0:
-                del new_name[key]
+                new_name.pop(key, None)     # the key may be absent
             else:
                 new_name[key] = -expo
 
